@@ -648,6 +648,33 @@ pub fn analyse(rep: &RunReport) -> Verdict {
         }
     }
 
+    // C12 at the second quiescence of each phase (every gate open, input open and silent, every thread quiet): a pipe that has
+    // input left to process is either full (at least `depth` outputs waiting to be read) or has been resumed; room that the
+    // consumer's last read made must have been used without the consumer having to come back
+    for (pi, snap) in facts.q2.iter().enumerate() {
+        for &(oi, si, pushed, started, finished, read, depth, out_dropped, consumer_waiting) in &snap.pipes {
+            let st = &world.streams[si];
+            let Some(pid) = st.pipe_op else { continue };
+            let r = &ops[pid as usize];
+            if r.kind != Kind::Pipe || r.phase != pi || !matches!(r.outcome, CallOutcome::Returned(_)) {
+                continue;
+            }
+            let o = r.obj.unwrap_or(0);
+            if out_dropped || consumer_waiting || panicked_obj(Some(o)) || started != finished || min_pool(prog) == 0 {
+                continue;
+            }
+            // somebody else may legitimately be holding the object (an operation that is itself stuck on something the program blocked)
+            let obj_busy = ops.iter().any(|x| x.obj == Some(o) && x.kind.has_body() && x.start.is_some() && x.fin.is_none());
+            if obj_busy {
+                continue;
+            }
+            let waiting_outputs = finished.saturating_sub(read);
+            if pushed > started && waiting_outputs < depth {
+                v(&mut out, "C12", "producer_not_resumed", &[pid], snap.seq, format!("pipe {} on object {}: {} of {} input items processed, {} outputs read, so only {} outputs are waiting in a buffer of depth {} and {} items are left in the input, but the producer is not running (output {}): the room made by the consumer's last read was not used", pid, o, finished, pushed, read, waiting_outputs, depth, pushed - started, oi));
+            }
+        }
+    }
+
     // C10 at the first quiescence of each phase
     if !prog.blocked_objs.is_empty() || !prog.blocking_gates.is_empty() {
         for (pi, snap) in facts.q1.iter().enumerate() {
